@@ -110,10 +110,28 @@ R4 = {
  "C19": " Reset targets on local day boundaries of each zone; SystemClock read by two threads with equal OS readings after a different earlier reading.",
  "C20": " Value-level faults of zone fields with the framing fixed up (transition instants replaced by the start/end-of-time markers, equal/earlier instants, tail flag toggled, counts +-1) and non-minimal varint re-encodings.",
 }
+R5 = {
+ "C01": " LocalDate.max/min must follow the day line on every walked pair and every month boundary.",
+ "C02": " Every named route to a calendar (static accessors, Hebrew/Islamic factories with every argument combination) must hand out the documented calendar object.",
+ "C03": " Date-dependent tzinfo objects (zoneinfo zones around every transition with both folds, a user-defined tzinfo) through Instant.from_aware_datetime; inexact float arguments (tiny magnitudes, negative non-dyadic values) with normal-form / sign-symmetry / one-rounding-error laws.",
+ "C04": " Cache-order histories with the following / previous / +-512-period slot first for every transition on a period edge, and for every interval longer than 512 periods.",
+ "C05": " 72 whole-day-skip user zones on month ends of several calendars checked in all 19 calendars; gaps of 24h40m / 26 h / 36 h swept at 10-minute steps with a local-value law for lenient results.",
+ "C06": " A reduced set of the same cache-order histories judged against the independent decoder.",
+ "C07": " with_* configuration chains in every order (<= 3 calls) against a sequential configuration model; the value's own format()/__format__/str.format route incl. whitespace-edged pattern texts.",
+ "C08": " Every culture's names containing non-alphanumeric characters (own text, case variants, each special character replaced); all interleavings of two composite builders' construct/add/build calls.",
+ "C09": " The DateAdjusters.add_period routes (LocalDate, LocalDateTime, OffsetDate, OffsetDateTime) for every (date, period) pair of the apply-period part.",
+ "C11": " Fixed zones with their own ids (tz database and user-made) with zone identity compared after every operation; at_start_of_day for non-ISO dates around every transition incl. midnight gaps.",
+ "C12": " Clone routes incl. pickling into another interpreter process and back (equality, hash, dict/set interchangeability, observations, internal representation).",
+ "C13": " Round 5: histories of culture-name spellings, reads interleaved with property writes on a mutable culture, consecutive questions to different week-year rule objects, every year asked cold (caches emptied) against a warm ascending pass, fixed-zone histories under ambient cultures with a culture-independent id oracle and provider round trip, provider warm for another id, concurrent pattern creation, first-use exploration in fresh interpreters that discovers lazily filled module/class-level containers and schedules inside their files (date adjusters, time-unit arithmetic, stdlib bridges, text formatting, week-year rules in the quick tier).",
+ "C14": " Writer call histories with pool-owner operations interposed against a list model; synthetic zones with equal neighbouring periods.",
+ "C15": " Date-dependent tzinfo objects on every from-aware route; sequences sharing one tzinfo object with different offsets.",
+ "C19": " Thread schedules in which a thread changes something and then resets the clock to the very Instant object it was built with (ABA); the IClock conveniences applied to a ZonedClock.",
+ "C20": " Value-level faults on the non-zone fields (string pool, version, id map, Windows mapping, zone locations) with field lengths recomputed.",
+}
 ENVP = (" Thorough tier: the complete quick exploration is additionally repeated in child interpreters under python -O (assertions stripped), under an ambient decimal context "
         "(prec=6, ROUND_UP) and under another PYTHONHASHSEED, against the same oracle (environment passes; VERIF_ENV_PASSES=1 runs them in the quick tier too).")
 for _k, _c in CHECKS.items():
-    _c["text"] = _c["text"] + R4.get(_k, "") + ENVP
+    _c["text"] = _c["text"] + R4.get(_k, "") + R5.get(_k, "") + ENVP
 READY = set("C01 C02 C03 C04 C05 C06 C07 C08 C09 C10 C11 C12 C13 C14 C15 C16 C17 C18 C19 C20".split())
 NOT_YET = "check not built yet in this session (planned, see DESIGN.md section 4)"
 def main():
